@@ -45,8 +45,8 @@ CHECKS = {
  "C08": ("model_checking",
          "stateless deviation-bounded exhaustive exploration of the close handshake on the real threads (controlled scheduler, mock transport, scripted broker), iterated over deviation bounds 0..2 (thorough 3)",
          "Client- and server-initiated close racing with a consumer, a blocked call and publishes on two other threads; CloseOk alone or followed by EOF (in the same read or later), transport stalled or not, delivery cuts; every decision sequence with at most 2 (thorough 3) deviations from the default schedule is executed. Oracle: last frame written (Close(200,goodbye) / CloseOk), close() result, first error on each channel, later calls fail, exactly one terminal consumer message, thread and transport released.",
-         "Scheduling granularity is channel/poll operations; session shape fixed (2 channels, 3 client threads); reply texts limited to the listed codes.",
-         "DESIGN.md §6 C08", "simx"),
+         "Scheduling granularity is channel/poll operations; session shape fixed (2 channels, 3 client threads); reply texts limited to the listed codes. The explorer parks a caller that would block in front of its send; the blocking hand-over itself is exercised by a second part (seqx handover): real threads, a queue of one entry, the I/O side leaving each kind of terminal error (or none) and going away while a publish / nowait call / synchronous call / listener registration is blocked - 32 cases, one forced schedule each, not an exploration of schedules.",
+         "DESIGN.md §6 C08", "seqx+simx"),
  "C09": ("model_checking",
          "stateless deviation-bounded exhaustive exploration of a server-initiated channel close on the real threads",
          "Three channels on three threads; the server closes channel n while it is idle, has a call in flight, has content half received, or has two consumers attached (the close is an environment action offered from the moment that state exists); the other channels keep making value-carrying calls; afterwards id n is re-opened. Every decision sequence with at most 2 (thorough 3) deviations. Oracle: ServerClosedChannel(n, code, text) on the in-flight/next call, later calls fail, consumers get exactly that terminal message, Channel.CloseOk(n) on the wire, other channels' replies intact, connection closes Ok, id reusable. A sweep over 7 reply codes x 3 texts at bound 0 (thorough 1). Second part: the ids scenario of C10, whose sequences include channels closed by the server (then dropped) and ids reopened explicitly or automatically afterwards. Third part: the throttle scenario of C18, which includes a server close of a channel while the channels are held back by the high-water mark, with the id reopened under back-pressure.",
